@@ -181,6 +181,10 @@ def cls_c07(e):
             bad.append("hdrKey")
         r = _cons(e, a["c"])
         out.append("dv_%s_%s_%s_%s" % ("+".join(bad) or "valid", r.get("phase", "unknown"), a["key"][:2], _code(e)))
+    if e["a"] == "Tx:Misbehaviour":
+        a = e["args"]
+        bad = [k for k in ("clientOk", "chainOk", "sameH", "sigOk") if not a[k]] + (["old"] if a["old"] else [])
+        out.append("mb_%s_signers%d_%s" % ("+".join(bad) or "valid", len(a["both"]), _code(e)))
     return out
 
 
@@ -387,9 +391,11 @@ PROPS = {
         "required_classes": {"quick": ["topN_67", "some_below_threshold", "optout_ok_topN0", "optout_rejected_topN+", "update_shaping_topN+"]}, "assumptions": [],
     },
     "C04": {
-        "level": "model_checking", "mc": MC_CAP, "corpora": [RANDOM, SCRIPTED], "invariants": [],
+        "level": "model_checking", "mc": MC_CAP, "corpora": [RANDOM, SCRIPTED, {"name": "vectors", "n": {"quick": 3, "thorough": 3}, "seed0": 0, "seeded": False}],
+        "invariants": ["C04_VecPowerCap", "C04_VecSetCap"],
         "properties": ["C04_Cap", "C04_PowerCap"],
-        "classify": cls_c04, "rule": "set computations with a validator-set cap or power cap in force", "required_classes": {"quick": []},
+        "classify": cls_c04, "rule": "set computations with a validator-set cap or power cap in force; plus the exported functions NoMoreThanPercentOfTheSum / CapValidatorSet run on every multiset of <= 5 powers from three small domains x every cap / percentage (complete enumeration of that domain)",
+        "required_classes": {"quick": ["VecPowerCap", "VecSetCap", "powcap_changed", "valcap_with_priority"]},
         "assumptions": [],
     },
     "C12": {
@@ -417,11 +423,11 @@ PROPS = {
             "mc": [{"module": "MC_Evidence.tla", "cfg": "MC_EvidenceQ.cfg", "timeout": 600},
                    {"module": "MC_Evidence.tla", "cfg": "MC_EvidenceT.cfg", "timeout": 1200, "tier": "thorough"}],
             "corpora": [{"name": "evidence", "n": {"quick": 12, "thorough": 48}, "seed0": 0, "seeded": False}],
-            "invariants": [], "properties": ["C07_Verdict", "C07_OnlySigner", "C07_RejectedUnchanged", "C07_TombstoneSticky"], "classify": cls_c07,
+            "invariants": [], "properties": ["C07_Verdict", "C07_OnlySigner", "C07_RejectedUnchanged", "C07_TombstoneSticky", "C07_MisbVerdict", "C07_MisbOnlySigners", "C07_MisbRejectedUnchanged"], "classify": cls_c07,
             "rule": "double-voting submissions by (mutated fields, consumer phase, kind of key, outcome)",
-            "required_classes": {"quick": ["dv_valid_launched_pk_ok", "dv_valid_launched_k2_ok", "dv_valid_launched_k1_ok", "dv_sigA_launched_pk_rej", "dv_chainOk_launched_pk_rej", "dv_old_launched_pk_rej", "dv_valid_deleted_pk_rej", "dv_valid_registered_pk_rej"]},
+            "required_classes": {"quick": ["dv_valid_launched_pk_ok", "dv_valid_launched_k2_ok", "dv_valid_launched_k1_ok", "dv_sigA_launched_pk_rej", "dv_chainOk_launched_pk_rej", "dv_old_launched_pk_rej", "dv_valid_deleted_pk_rej", "dv_valid_registered_pk_rej", "mb_valid_signers3_ok", "mb_valid_signers1_ok", "mb_valid_signers3_rej", "mb_clientOk_signers3_rej", "mb_sigOk_signers3_rej"]},
             "assumptions": ["cryptography is abstracted to booleans that the harness realises with real ed25519 votes; forging outside the enumerated mutation classes is not explored",
-                            "light-client-attack misbehaviour (MsgSubmitConsumerMisbehaviour) is not driven by this check: only double-voting evidence is"]},
+                            "light-client misbehaviour: equivocation by all signers and by a single >1/3 signer with a different validator set; amnesia attacks (differing rounds) are not constructed"]},
     "C08": {"level": "model_checking", "mc": MC_SLASH, "corpora": [RANDOM, SCRIPTED], "invariants": ["C08_Outstanding"],
             "properties": ["C08_Outcome", "C08_Params", "C08_AckCarried", "C08_AckOnlyThere", "C08_FlagCleared"], "classify": cls_c08,
             "rule": "slash packets received by the provider by (infraction, acknowledgement), VSC packets carrying slash acks, consumer blocks with outstanding flags / pending slash packets",
@@ -506,7 +512,7 @@ for _p, _t, _n in [
 MANIFEST_TEXT["C18"] = {"text": "N-version execution: the specification supplies the histories (random driver and scripted scenarios with ties, many consumers and validators) and a trivial agreement invariant that TLC evaluates on the merged observation trace of 3 replicas; this is exploration, not model checking.",
                         "note": "Same-process replicas; transaction bytes are regenerated deterministically per replica rather than copied.", "technique": "replica execution of generated histories + TLC agreement invariant on the observation trace"}
 MANIFEST_TEXT["C07"] = {"text": "MC_Evidence enumerates the mutation lattice of the abstract evidence record x consumer state x key kind x validator state and checks the transcribed chain of checks against the declarative verdict; the harness realises each record with real ed25519 votes (valid record, every single-field mutation, current / assigned / replaced / foreign / unknown keys, twin consumers sharing a chain id, never-launched, stopped and deleted consumers, undelegations and redelegations, repeated submissions) and TLC checks verdict, exactly-the-signer, amounts and rejected-unchanged on the recorded steps.",
-                        "note": "Double-voting evidence only; the misbehaviour (light-client attack) message is not covered. Slash amounts are bounded (consumer fraction x power, plus stake still unbonding), not computed exactly."}
+                        "note": "Misbehaviour evidence: soundness of acceptance and exactly-the-common-signers are checked; completeness of acceptance is left to the light client. Slash amounts are bounded (consumer fraction x power, plus stake still unbonding), not computed exactly."}
 MANIFEST_TEXT["C16"] = {"text": "TLC evaluates, on states recorded from real consumer and provider applications connected by real CCV and transfer channels, the exact fee split and transmission on the consumer, crediting of the sending consumer, pool solvency, and per-(consumer, denom) payout (only eligible members, proportional to power, commission rate, nothing beyond dust lost, other consumers untouched), including allocations with injected failures.",
                         "note": "Integer abstraction of 18-decimal arithmetic with a tolerance of one unit per participant; scripted reward scenario (two consumers sharing the flow, validator-set changes between crediting and payout) rather than the random driver."}
 MANIFEST_TEXT["C17"] = {"text": "TLC evaluates binding invariants (consumer/client/channel one-to-one, channel built on the consumer's client) on every recorded provider state and the acceptance rule of every handshake step; a scripted scenario drives every deviation (ordering, ports, version, foreign client, provider-initiated, racing handshakes, repeated attempts, second consumer on the same connection) with real IBC proofs, forged channel ends standing for a compromised consumer.",
